@@ -54,17 +54,21 @@ example : ∃ v st', evalNodeF c10ExTree c10ExWorld 5 false (.comp {} (.call "f"
   refine ⟨_, _, rfl, ?_, ?_⟩ <;> rfl
 
 /- the same for the two other ways a consumer reaches a memoised value: `ctx.get_node` (references)
-   and `ecfg[name]` (names in `!eval` code) return it without touching the state -/
+   and `ecfg[name]` (names in `!eval` code) return it without executing or memoising anything
+   (`ctx.get_node` returns the state too since the repair of the laundering defect: a tainted hit
+   in non-strict mode bumps the counter of unsafe content seen; log and memo table are untouched) -/
 theorem C10_lookup_hit_no_log (rec : Rec) (root : Node) (rs : Bool) (p : Path) (nm : String)
     (st st' : EvSt) (v0 v : Val) :
-    (plookup p st.cache = some v0 → ∀ g, ctxGetNode root rs p st = .ok g → g = .value v0) ∧
+    (plookup p st.cache = some v0 → ∀ g s1, ctxGetNode root rs p st = .ok (g, s1) →
+      g = .value v0 ∧ s1.log = st.log ∧ s1.cache = st.cache) ∧
     (plookup [Key.str nm] st.cache = some v0 → ecfgLookup rec root nm st = .ok (v, st') →
       v = v0 ∧ st' = st) := by
   refine ⟨?_, ?_⟩
-  · intro hc g hg
-    simp only [ctxGetNode, hc] at hg
-    split at hg <;> cases hg
-    rfl
+  · intro hc g s1 hg
+    rcases ctxGetNode_ok_inv hg with ⟨v1, rfl, hv, ⟨_, rfl⟩ | ⟨_, _, rfl⟩⟩ | ⟨_, _, hn, _⟩
+    · rw [hc] at hv; cases hv; exact ⟨rfl, rfl, rfl⟩
+    · rw [hc] at hv; cases hv; exact ⟨rfl, rfl, rfl⟩
+    · rw [hc] at hn; cases hn
   · intro hc h
     simp only [ecfgLookup, hc] at h
     split at h <;> cases h
